@@ -36,6 +36,8 @@ REQUIRED = {"template[synthetic-unit-filled]": 10,
             "witness_layouts_judged": 400,
             "hardness_evaluations": 10, "fresh_process_references": 4,
             "hardness_iterable_executors": 6, "hardness_on_a_slow_machine": 4,
+            "short_lived_instances_rated_by_one_objective": 20,
+            "instance_got_the_address_of_the_collected_one": 5,
             "decodes_from_a_reused_point_buffer": 50,
             "hardness_sibling_histories": 2, "errors_of_template_zero": 5,
             "extreme_value_vectors": 100}
@@ -97,6 +99,7 @@ def install(ctx):
                 TRACER.end()
         judge_decode(c, sp, x, y, tr)
 
+    InstanceDecoder._verif_orig_decode = orig    # for lifetime-sensitive use
     InstanceDecoder.decode = decode
 
 
@@ -535,6 +538,40 @@ def hardness(ctx, tcase):
                 "hardness-depends-on-callers-iterable",
                 f"executors given as a {how}: {g1!r}, then {g2!r}; the same "
                 f"set-ups as a tuple: {ref!r}", {**case, "how": how})
+    # one long-lived objective rates short-lived instances one after the
+    # other (each generated from the same template without slack - same
+    # name, item count and area -, rated, dropped and collected before the
+    # next one is made, as an optimizer's decode / evaluate loop does)
+    long_h = Hardness(fes, runs)
+    last_id = None
+    from moptipyapps.binpacking2d.instgen.inst_decoding import InstanceDecoder
+    dec = InstanceDecoder(sp)
+    base_dim = 2 * (sp.n_items - sp.min_bins)
+    raw_decode = getattr(InstanceDecoder, "_verif_orig_decode",
+                         InstanceDecoder.decode)
+
+    def rate(xv):
+        # (a helper whose locals die on return: the next instance very often
+        # gets the address of this one)
+        yl = sp.create()
+        raw_decode(dec, xv, yl)     # unobserved: the tracer holds on to
+        #                             what it saw until the next decode
+        return (long_h.evaluate(yl), Hardness(fes, runs).evaluate(yl),
+                id(yl[0]))
+    for _j in range(5):
+        xv = rng.uniform(-1.0, 1.0, base_dim)
+        got, fresh, addr = rate(xv)
+        if addr == last_id:
+            ctx.count("instance_got_the_address_of_the_collected_one")
+        last_id = addr
+        ctx.count("short_lived_instances_rated_by_one_objective")
+        if got != fresh:
+            ctx.violation(
+                "hardness-depends-on-what-was-rated-before",
+                f"a Hardness({fes}, {runs}) object that rated other (by now "
+                f"collected) instances before gives {got!r}, a fresh one "
+                f"{fresh!r}", {**case, "x": [float(v) for v in xv]})
+            break
     eh = ErrorsAndHardness(sp, fes, runs)
     w1 = eh.evaluate([inst])
     w2 = eh.evaluate([inst])
